@@ -755,13 +755,25 @@ def c14(tier, replay_file=None):
                     break
             ks = ks[:5] + [k for k in ("F5",) if k not in ks[:5]]
             jobs.append({"id": "acc-%s" % cid, "layout": lay, "keys": ks, "maxheld": 3, "source_input_the_loader_accepted": case_by_id.get(cid)})
+        # every key the tool has a name for, as the last trigger key of a chord, as an output and as a repeat key of a layout that goes
+        # through the real loader into the real mapper (tables indexed or sized by key code show only for particular codes)
+        nkeys = 0
+        for kk in tool_keys(exe, wd):
+            K = kk["name"]
+            if K in ("CAPSLOCK", "A", "B", "C", "LEFTCTRL"):
+                continue
+            nkeys += 1
+            src = {"mappings": [{"from": ["CAPSLOCK", K], "to": ["LEFTCTRL", "C"]}, {"from": "A", "to": K},
+                                {"from": "B", "to": "B", "repeat": {"Special": {"keys": [K], "delay_ms": 100, "interval_ms": 30}}}]}
+            jobs.append({"id": "key-%s" % K, "fancy": src, "keys": ["CAPSLOCK", K, "A", "B"], "maxheld": 3,
+                         "source_input_the_loader_accepted": {"id": "key-%s" % K, "json": src, "kind": "value"}})
         stats, shards = e1.tabulate(exe, wd, jobs, PROCS)
         gen, dist, counters = e1.run_model(res, wd, shards, ["C14", "RA"], known_ids(prop), [], prop, timeout=1500 if tier == "quick" else 7200)
         res.coverage = {
             "evaluations": judged + stats["layouts"], "distinct_nontrivial": nontriv,
             "rule": "loader: every program of the C13 family in two spellings; structure-aware mutations (%d replacement values, deletion, duplication/extra field) at every JSON path of %d seed "
                     "programs (family members, built-ins, README examples); every prefix of %d pretty-printed texts, a few non-JSON byte strings and random byte-level damage (insert/delete/replace) of compact texts, through load_layout_from_file. "
-                    "Non-trivial = inputs the loader accepted. Mapper: %d distinct accepted layouts (of %d) installed in the real mapper and driven with every event sequence over "
+                    "Non-trivial = inputs the loader accepted. Mapper: a three-mapping layout per key name the tool knows (the key as last trigger key, as output and as repeat key) and %d distinct accepted layouts (of %d) installed in the real mapper and driven with every event sequence over "
                     "their first keys + a foreign key, <= 3 keys held (states/transitions below); a panic anywhere is recorded under catch_unwind and judged by TLC."
                     % (len(MUT_VALUES), len(seeds), 20 if tier == "quick" else 120, len(jobs), len(lays)),
             "samples": [vcases[nvalid + 5]["json"], vcases[len(vcases) // 2]["json"], tcases[len(tcases) // 2].get("text", "")[-200:]],
